@@ -249,7 +249,59 @@ def packet_attr_reads(stmts, pk):
     return out
 
 
-def name_agreement(report, rid, db, P, reactor_ci, state):
+def version_truth(P, fi, e, v):
+    """Truth of a condition built only from version predicates on the
+    context (with not/and/or) under protocol version v; None when it
+    involves anything else."""
+    from .fold import Env
+    if isinstance(e, ast.Call) and isinstance(e.func, ast.Attribute) and \
+            e.func.attr.startswith('protocol_'):
+        args = [P.F.eval(x, Env(fi.module)) for x in e.args]
+        fv = P.F.getattr(P.ctx(v), e.func.attr, e, fi.module)
+        return bool(P.F.call(fv, args, {}, e, Env(fi.module)))
+    if isinstance(e, ast.UnaryOp) and isinstance(e.op, ast.Not):
+        t = version_truth(P, fi, e.operand, v)
+        return None if t is None else not t
+    if isinstance(e, ast.BoolOp):
+        vals = [version_truth(P, fi, x, v) for x in e.values]
+        if isinstance(e.op, ast.And):
+            if any(x is False for x in vals):
+                return False
+            return None if any(x is None for x in vals) else True
+        if any(x is True for x in vals):
+            return True
+        return None if any(x is None for x in vals) else False
+    return None
+
+
+def version_conditions(P, fi, g, node):
+    """callable v -> bool from the version-only conditions dominating a
+    CFG node."""
+    from . import boolfn
+    conds = boolfn.path_conditions(g, node)
+
+    def holds(v):
+        for e, t in conds:
+            r = version_truth(P, fi, e, v)
+            if r is not None and r != t:
+                return False
+        return True
+    return holds
+
+
+def version_guard(P, fi, g, M, astnode):
+    """callable v -> bool: is the statement holding `astnode` reachable
+    under protocol version v, as far as version predicates dominating it
+    say."""
+    hs = [version_conditions(P, fi, g, n)
+          for n in M.cfg_nodes_of(fi, astnode)]
+
+    def holds(v):
+        return any(h(v) for h in hs) if hs else True
+    return holds
+
+
+def name_agreement(report, rid, db, P, reactor_ci, state, M=None):
     """Every packet_name a reactor compares with is the packet_name of a
     class in its clientbound table, and every packet attribute the arm reads
     is a field of that class wherever it is registered."""
@@ -280,6 +332,17 @@ def name_agreement(report, rid, db, P, reactor_ci, state):
                              % (nm, state))
             continue
         reads = packet_attr_reads(body, pk) - {'packet_name'}
+        guards = {}
+        if M is not None:
+            from .cfg import cfg_of
+            g = cfg_of(fi)
+            for s2 in body:
+                for x in ast.walk(s2):
+                    if isinstance(x, ast.Attribute) and isinstance(
+                            x.value, ast.Name) and x.value.id == pk and \
+                            isinstance(x.ctx, ast.Load):
+                        guards.setdefault(x.attr, []).append(
+                            version_guard(P, fi, g, M, x))
         for cv, vs in names[nm].items():
             missing = {}
             for v in vs:
@@ -295,6 +358,8 @@ def name_agreement(report, rid, db, P, reactor_ci, state):
                                 x.ctx, ast.Store):
                             have.add(x.attr)
                 for a in reads:
+                    if a in guards and not any(h(v) for h in guards[a]):
+                        continue       # not read under this version
                     if a not in have and db.find_attr(cv.ci, a) is None:
                         missing.setdefault(a, []).append(v)
             if missing:
@@ -376,20 +441,11 @@ def field_completeness(report, rid, db, cg, P, M, fi):
                 continue
             n += 1
             cv = ClassVal(ci)
-            conds = [(e, t) for e, t in boolfn.path_conditions(g, node)
-                     if isinstance(e, ast.Call) and isinstance(
-                         e.func, ast.Attribute)
-                     and e.func.attr.startswith('protocol_')]
+            vholds = version_conditions(P, fi, g, node)
             missing = {}
             nv = 0
             for v in P.supported:
-                ok = True
-                for e, t in conds:
-                    args = [P.F.eval(x, Env(fi.module)) for x in e.args]
-                    fv = P.F.getattr(P.ctx(v), e.func.attr, e, fi.module)
-                    if bool(P.F.call(fv, args, {}, e, Env(fi.module))) != t:
-                        ok = False
-                if not ok:
+                if not vholds(v):
                     continue
                 nv += 1
                 _, wr = P.custom_codec(ci)
